@@ -881,7 +881,7 @@ func TestC08Reader(t *testing.T) {
 					minCrashDepth = j.Depth
 				}
 				ag.add("C08.crash."+cause, int64(r.ID), func() (string, any) {
-					return fmt.Sprintf("the process died while the reader (max message size %d = default MaxMetadataSize) read: %s; its output began: %s", realMax, what, firstLines(crashOut, 14)), jobs[r.ID]
+					return fmt.Sprintf("the process died while the reader (max message size %d = default MaxMetadataSize) read: %s; its output began: %s", realMax, what, firstLines(crashOut, 3)), jobs[r.ID]
 				})
 				ctr["process_deaths"]++
 				continue
